@@ -1,8 +1,104 @@
 package an
 
 import (
+	"strings"
+
 	"golang.org/x/tools/go/ssa"
 )
+
+// Disjunctive facts: "or:a|b" (a, b plain facts in sorted order) holds when a or b holds. They are produced
+// where two paths meet that each establish a different fact — the shape `if x == nil && y == nil { fail }`
+// leaves behind — and consumed by ResolveOr when one alternative is refuted.
+
+func orFact(a, b string) string {
+	if a > b {
+		a, b = b, a
+	}
+	return "or:" + a + "|" + b
+}
+
+func orParts(f string) (string, string, bool) {
+	if !strings.HasPrefix(f, "or:") {
+		return "", "", false
+	}
+	i := strings.Index(f, "|")
+	if i < 0 {
+		return "", "", false
+	}
+	return f[3:i], f[i+1:], true
+}
+
+func holdsFact(set map[string]bool, f string) bool {
+	if set[f] {
+		return true
+	}
+	if a, b, ok := orParts(f); ok {
+		return set[a] || set[b]
+	}
+	return false
+}
+
+func meetFacts(a, b map[string]bool) map[string]bool {
+	out := map[string]bool{}
+	var onlyA, onlyB []string
+	for k := range a {
+		if holdsFact(b, k) {
+			out[k] = true
+		} else if !strings.HasPrefix(k, "or:") {
+			onlyA = append(onlyA, k)
+		}
+	}
+	for k := range b {
+		if holdsFact(a, k) {
+			out[k] = true
+		} else if !strings.HasPrefix(k, "or:") {
+			onlyB = append(onlyB, k)
+		}
+	}
+	if len(onlyA) > 0 && len(onlyA) <= 3 && len(onlyB) > 0 && len(onlyB) <= 3 {
+		for _, x := range onlyA {
+			for _, y := range onlyB {
+				out[orFact(x, y)] = true
+			}
+		}
+	}
+	return out
+}
+
+func sameSet(a, b map[string]bool) bool {
+	if len(a) != len(b) {
+		return false
+	}
+	for k := range a {
+		if !b[k] {
+			return false
+		}
+	}
+	return true
+}
+
+// ResolveOr: fact `refuted` is known not to hold; every disjunction containing it yields its other part.
+func ResolveOr(cur map[string]bool, refuted string) {
+	for k := range cur {
+		if a, b, ok := orParts(k); ok {
+			if a == refuted {
+				cur[b] = true
+			} else if b == refuted {
+				cur[a] = true
+			}
+		}
+	}
+}
+
+// KillFact removes a fact and every disjunction mentioning it.
+func KillFact(cur map[string]bool, f string) {
+	delete(cur, f)
+	for k := range cur {
+		if a, b, ok := orParts(k); ok && (a == f || b == f) {
+			delete(cur, k)
+		}
+	}
+}
 
 // Facts is a forward must-analysis over string facts (analysis L): a fact holds at a point when it holds
 // on every path reaching it. Gen updates the fact set at an instruction; Edge adds the facts learnt by
@@ -48,13 +144,8 @@ func (f *Facts) Run() {
 			if f.in[s.Index] == nil {
 				merged = out
 			} else {
-				merged = map[string]bool{}
-				for k := range f.in[s.Index] {
-					if out[k] {
-						merged[k] = true
-					}
-				}
-				if len(merged) == len(f.in[s.Index]) {
+				merged = meetFacts(f.in[s.Index], out)
+				if sameSet(merged, f.in[s.Index]) {
 					continue
 				}
 			}
